@@ -159,7 +159,7 @@ def parse_tla_set_of_notes(out):
     return sorted((k, sorted(v)) for k, v in uniq.items())
 
 
-MODULE_CONSTS = {"ApiTotalTrace": "  Full = TRUE\n"}
+MODULE_CONSTS = {"ApiTotalTrace": "  Full = TRUE\n", "LockTrace": "  DB <- TraceDBs\n"}
 
 
 def tlc_trace(trace_path, dev=(), module="NutsTrace", diag_line=0, timeout=900, heap="3g", sdir=None, extra_consts=""):
@@ -305,8 +305,8 @@ class Result:
         return 1 if self.violations else 0
 
 
-def drive(args, timeout=900, binary="drive"):
-    p = run([os.path.join(BIN, binary)] + args, timeout=timeout)
+def drive(args, timeout=900, binary="drive", env=None):
+    p = run([os.path.join(BIN, binary)] + args, timeout=timeout, env=env)
     if p.returncode != 0:
         raise Infra("driver failed (rc=%d): %s\n%s" % (p.returncode, " ".join(args), (p.stdout + p.stderr)[-3000:]))
     return p
@@ -320,42 +320,68 @@ def drive_and_validate(res, shards, dev, what, family_desc, rerun=True):
     work = scratch("verif-run-")
     sdir = spec_dir()
 
+    def validate(path, module, mydev):
+        # pass 1: the ideal specification (no deviation enabled).  Only if it
+        # rejects: pass 2 with the recorded known findings enabled.
+        r = tlc_trace(path, dev=(), sdir=sdir, module=module)
+        r["module"] = module
+        r["ideal_accepted"] = r["accepted"]
+        if not r["accepted"] and mydev:
+            r1 = r
+            r = tlc_trace(path, dev=mydev, sdir=sdir, module=module)
+            r["module"] = module
+            r["ideal_accepted"] = False
+            r["ideal_reached"] = r1["reached"]
+        return r
+
     def one(i, args, attempt=0):
         out = os.path.join(work, "t%d-%d.ndjson" % (i, attempt))
         summ = os.path.join(work, "s%d-%d.json" % (i, attempt))
         tmp = os.path.join(work, "d%d-%d" % (i, attempt))
         os.makedirs(tmp, exist_ok=True)
         binary, args_, mydev, module = "drive", list(args), dev, "NutsTrace"
+        conc = False
         while args_ and args_[0][0] in "@#%":
             if args_[0].startswith("@"):
                 binary = args_[0][1:]
+            elif args_[0].startswith("%conc"):   # concurrent run: race-instrumented binary, lock stream, no re-execution
+                conc = True
+                binary = "drive-race"
             elif args_[0].startswith("%"):   # "%mod=<trace module>"
                 module = args_[0][5:]
             else:   # "#dev=F-a,F-b": the deviations that apply to this kind of trace
                 mydev = [x for x in args_[0][5:].split(",") if x and x in dev]
             args_ = args_[1:]
-        drive(args_ + ["-out", out, "-summary", summ, "-tmp", tmp], binary=binary)
+        env = None
+        racelog = os.path.join(work, "race%d-%d" % (i, attempt))
+        if conc:
+            env = dict(os.environ, GORACE="log_path=%s halt_on_error=0 exitcode=0 history_size=2" % racelog)
+        drive(args_ + ["-out", out, "-summary", summ, "-tmp", tmp], binary=binary, env=env)
         shutil.rmtree(tmp, ignore_errors=True)
         with open(summ) as f:
             s = json.load(f)
-        # pass 1: the ideal specification (no deviation enabled).  Only if it
-        # rejects: pass 2 with the recorded known findings enabled.
-        r = tlc_trace(out, dev=(), sdir=sdir, module=module)
-        r["module"] = module
-        r["ideal_accepted"] = r["accepted"]
-        if not r["accepted"] and mydev:
-            r1 = r
-            r = tlc_trace(out, dev=mydev, sdir=sdir, module=module)
-            r["module"] = module
-            r["ideal_accepted"] = False
-            r["ideal_reached"] = r1["reached"]
-        return {"i": i, "args": args, "trace": out, "summary": s, "tlc": r}
+        rs = [{"i": i, "args": args, "trace": out, "summary": s, "tlc": validate(out, module, mydev), "conc": conc}]
+        if conc and os.path.exists(out + ".lock"):
+            # race-detector reports become events of the lock stream: an extra
+            # event source for code the access hooks do not cover
+            nrace = 0
+            with open(out + ".lock", "a") as lf:
+                for fn in sorted(os.listdir(work)):
+                    if fn.startswith(os.path.basename(racelog) + "."):
+                        txt = open(os.path.join(work, fn), errors="replace").read()
+                        for rep in txt.split("WARNING: DATA RACE")[1:]:
+                            nrace += 1
+                            lf.write(json.dumps({"ev": "race", "merger": "(*DB).Merge" in rep or "reWriteData" in rep or "getPendingMergeEntries" in rep,
+                                                 "text": rep[:1500]}) + "\n")
+            s2 = {"histories": 0, "by_op": {}, "nontrivial": {"race_reports": nrace}}
+            rs.append({"i": i, "args": args, "trace": out + ".lock", "summary": s2, "tlc": validate(out + ".lock", "LockTrace", mydev), "conc": conc})
+        return rs
 
     results = []
     with cf.ThreadPoolExecutor(max_workers=max(1, min(len(shards), NCPU - 2))) as ex:
         futs = [ex.submit(one, i, a) for i, a in enumerate(shards)]
         for f in futs:
-            results.append(f.result())
+            results.extend(f.result())
     for r in results:
         t, s = r["tlc"], r["summary"]
         res.cov["traces_validated_against_impl"] += s.get("histories", 1)
@@ -377,12 +403,17 @@ def drive_and_validate(res, shards, dev, what, family_desc, rerun=True):
                 res.known_finding(fid, "%s (first seen at trace line %d: %s)" % (txt, line, json.dumps(ev[0])[:300] if ev else ""))
         if not t["accepted"]:
             bad = t["reached"] + 1
-            # re-execute the same seed: a rejection must reproduce
-            r2 = one(r["i"], r["args"], attempt=1)
-            t2 = r2["tlc"]
-            if t2["accepted"]:
-                raise Infra("rejection at line %d of %s did not reproduce on re-execution" % (bad, r["trace"]))
-            bad2 = t2["reached"] + 1
+            if r.get("conc"):
+                # a concurrent run cannot be re-executed identically: the recorded,
+                # linearised trace is the evidence and the replay file
+                r2, t2, bad2 = r, t, bad
+            else:
+                # re-execute the same seed: a rejection must reproduce
+                r2 = [x for x in one(r["i"], r["args"], attempt=1) if x["tlc"]["module"] == t["module"]][0]
+                t2 = r2["tlc"]
+                if t2["accepted"]:
+                    raise Infra("rejection at line %d of %s did not reproduce on re-execution" % (bad, r["trace"]))
+                bad2 = t2["reached"] + 1
             first, last = history_bounds(r2["trace"], bad2)
             first = max(first, bad2 - 400)
             diag = tlc_trace(r2["trace"], dev=(), diag_line=min(bad2, r2["tlc"].get("ideal_reached", bad2 - 1) + 1), sdir=sdir, module=t2.get("module", "NutsTrace"))
